@@ -400,18 +400,36 @@ func isReset(fn *ssa.Function) bool {
 }
 
 func singleBlockInlineable(fn *ssa.Function) bool {
-	if len(fn.Blocks) != 1 {
+	if len(fn.Blocks) != 1 || len(fn.Blocks[0].Instrs) > 40 {
 		return false
+	}
+	// a predicate-like helper (one scalar result) may call modelled primitives; its calls are interpreted like the
+	// caller's own. Helpers that write through their parameters are the named primitives of the specifications and stay
+	// opaque unless they only reset / access fields.
+	predicate := false
+	if rs := fn.Signature.Results(); rs.Len() == 1 {
+		if _, ok := rs.At(0).Type().Underlying().(*types.Basic); ok {
+			predicate = true
+		}
 	}
 	for _, in := range fn.Blocks[0].Instrs {
 		if c, ok := in.(*ssa.Call); ok {
 			f := c.Common().StaticCallee()
-			if f == nil || !isReset(f) {
+			if f == nil {
+				if _, isBuiltin := c.Common().Value.(*ssa.Builtin); isBuiltin {
+					continue
+				}
+				return false
+			}
+			if _, isAcc := accessorField(f); isAcc || isReset(f) {
+				continue
+			}
+			if !predicate {
 				return false
 			}
 		}
 	}
-	return len(fn.Blocks[0].Instrs) <= 40
+	return true
 }
 
 func (it *interp) moduleCall(x *ssa.Call, fn *ssa.Function) val {
